@@ -452,6 +452,15 @@ def gen_matching_case(r: random.Random, max_n: int = 24, force_2d: Optional[bool
             # pairs are formed)
             lab = "false_positive" if ((fpv and r.random() < 0.75) or r.random() < 0.12) else r.choice(labs + (["unknown"] if r.random() < 0.1 else []))
             gts_e.append(O.obj3d(r.uniform(-spread, spread), r.uniform(-spread, spread), r.uniform(-1, 1), O.rand_yaw(r), w, l, h, lab, uuid=f"g{k}", npts=r.randint(0, 50)))
+        if gts_e and r.random() < 0.12:
+            # a doubly annotated object: two ground truths with the same pose and label (equal under the library's object
+            # equality) but their own uuid - two ground truths all the same
+            src = r.choice(gts_e)
+            b0 = O.box_of(src)
+            dup = O.obj3d(*b0, O.lab_of(src), uuid=f"{src.uuid}dup", npts=r.randint(0, 50))
+            dup.state.position, dup.state.orientation = src.state.position, src.state.orientation
+            gts_e.append(dup)
+            case.update(duplicate_gt=True)
         for k in range(n_est):
             coincident_with = None
             if gts_e and r.random() < 0.8:
